@@ -73,7 +73,8 @@ HARNESS(h_addrheap)
     for (unsigned step = 0; step < H; ++step) {
         unsigned op = nondet_below(8); uint8_t k = (uint8_t)nondet_below(NK); OBS(op * 8 + k);
         switch (op) {
-        case 0: case 1: if (!present[k]) { hp.push(k); present[k] = true; ++n; } break;
+        case 0: if (!present[k]) { hp.push(k); present[k] = true; ++n; } break;
+        case 1: if (!present[k]) { hp.push(uint8_t(k + 0)); present[k] = true; ++n; } break;   // the rvalue overload of push
         case 2: if (n > 0) { uint8_t t = hp.top(); hp.pop(); CHECK(t < NK && present[t], "popped key was stored"); if (t < NK) { present[t] = false; --n; } } break;
         case 3: if (n > 0) { uint8_t t = hp.extract_top(); CHECK(t < NK && present[t], "extracted key was stored");
                     if (t < NK) { for (unsigned j = 0; j < NK; ++j) if (present[j]) CHECK(!(prio[j] < prio[t]), "extract_top returns a key of minimal priority"); present[t] = false; --n; } } break;
